@@ -10,7 +10,7 @@ def check(tier):
             '(or returns a callback error). That closes the histories and configurations quantifiers by induction; the programs quantifier is a '
             'corpus. Counterexamples are replayed natively on the emitted file (ASan) and searched for reachability from the pristine context. '
             'For documents with nested histories the history clause is not decided (listed).')
-    return genc_common.account('C02', tier, lambda key, tag, f: key == 'B' and tag == 'C02', expl, 'translation_validation',
+    return genc_common.account('C02', tier, lambda key, tag, f: key in ('B', 'R') and tag == 'C02', expl, 'translation_validation',
                                extra_note='genc/C02: the loop contract (part A) and the glue lemma (part G) that close the DEQUEUE_EVENT loop are accounted under C04; C02 counts a document\'s obligations as unbounded only if they passed')
 
 
